@@ -190,6 +190,8 @@ def decide(idx, seed, tier, cls, given=None):
                 moves = [[rng.choice([0, 1, 2, 3]) for _ in range(W)] for _ in range(L)]
             loose = [[1 if kind == 1 else rng.choice([0, 1]) for _ in range(W)] for _ in range(L)]
             rewards = [[rng.randint(0, 6) for _ in range(W)] for _ in range(L)]
+            if idx % 5 == 3:
+                rewards = [[rng.choice([0, 2.0, 2.5, 0.25]) for _ in range(W)] for _ in range(L)]     # hand-made boards may carry floats
             pr, pl, pt = rng.choice(P_SOLVE), rng.choice(P_SOLVE), rng.choice(P_SOLVE)
             solve = True
             if given is not None:
@@ -280,11 +282,99 @@ def decide(idx, seed, tier, cls, given=None):
     return res
 
 
+EDGE_VALUES = [0.0, 1.0, 1.5, -0.1, 2.0]
+
+
+def decide_edge(idx, seed):
+    """Parameter sets with ONE probability on or outside the documented bounds: the generator either refuses them (ValueError, C15)
+    or - if it accepts - the file it writes must satisfy everything C11 promises for accepted parameter sets."""
+    rg = monitors.mods()["roberta_generator"]
+    cr = monitors.mods()["conditionalrewards"]
+    names = ["p_robot", "p_light", "p_tile", "p_loose"]
+    nm = names[idx % 4]
+    val = EDGE_VALUES[(idx // 4) % len(EDGE_VALUES)]
+    p = {"seed": 5 + idx, "width": 2, "length": 2, "max_reward": 6, "p_robot": .1, "p_light": .1, "p_tile": .1, "p_loose": .9, "force_down": False}
+    p[nm] = val
+    res = {"idx": idx, "verdict": "held", "stats": {"edge_parameter_sets": 1}, "tags": ["EDGE"], "nontrivial": True, "key": "edge:%s=%r" % (nm, val)}
+    with gc.Scratch() as sc_:
+        exc, log, writes = gc.call_main(rg, gc.gen_argv(p["seed"], p["width"], p["length"], p["p_robot"], p["p_light"], p["p_tile"], p["p_loose"], p["max_reward"], False))
+        if exc is not None:
+            res["stats"]["edge_refused"] = 1
+            return res                       # refused: nothing to check here
+        res["stats"]["edge_accepted"] = 1
+        files = sc_.listing()
+        problems = []
+        if len(files) != 1:
+            problems.append({"problem": "accepted parameter set did not produce exactly one file", "files": files})
+        else:
+            try:
+                pr_, st = validate_structure(cr.read_dict_from_file(files[0]))
+                problems += pr_
+            except Exception as e:
+                problems.append({"problem": "the solver's reader cannot load the file: %r" % e})
+    if problems:
+        res.update(verdict="violated", what="%s accepted with %s=%r: %s %s" % ("parameter set", nm, val, problems[0]["problem"], problems[0].get("game", "")),
+                   witness=problems[:3], case={"edge": idx})
+    return res
+
+
+def decide_slow(idx, seed):
+    """Tiny boards with a break probability very close to 1: value iteration legitimately needs 1e5+ sweeps; the games must
+    still end up solved (or reported unsolvable), not reported with some other error."""
+    rg = monitors.mods()["roberta_generator"]
+    cr = monitors.mods()["conditionalrewards"]
+    tad = monitors.mods()["tad"]
+    pval = [0.99992, 0.99988, 0.99993][idx % 3]
+    which = ["p_robot", "p_light"][idx % 2]
+    p = {"seed": idx, "width": 1, "length": 1 + idx % 2, "max_reward": 2, "p_robot": .1, "p_light": .1, "p_tile": .1, "p_loose": .3, "force_down": idx % 2 == 0}
+    p[which] = pval
+    res = {"idx": idx, "verdict": "held", "stats": {"slow_parameter_sets": 1}, "tags": ["SLOWP"], "nontrivial": True, "key": "slow:%s=%r:%d" % (which, pval, idx)}
+    problems = []
+    with gc.Scratch() as sc_:
+        exc, log, writes = gc.call_main(rg, gc.gen_argv(p["seed"], p["width"], p["length"], p["p_robot"], p["p_light"], p["p_tile"], p["p_loose"], p["max_reward"], p["force_down"]))
+        if exc is not None:
+            res.update(verdict="violated", what="generator raised %r" % exc, case={"slow": idx})
+            return res
+        gamesd = cr.read_dict_from_file(sc_.listing()[0])
+    for name, g in gamesd.items():
+        n = len(g["players"]); m = sum(len(t) for t in g["transition_list"])
+        try:
+            with monitors.budget(int(3e6 * 3 * (n + m))):
+                rr = cr.run_games({name: boards_common.fresh(g)})
+        except monitors.StepBudgetExceeded as e:
+            d = e.diag or {}
+            if d.get("phase") == "total_rewards" and d.get("main_quiet") and d.get("reach_min_rew_quiet") and d.get("aux_constant_growth"):
+                res["stats"]["slow_known_divergence"] = res["stats"].get("slow_known_divergence", 0) + 1
+            else:
+                res["stats"]["slow_budget_inconclusive"] = res["stats"].get("slow_budget_inconclusive", 0) + 1
+            continue
+        finally:
+            monitors.MON.metering = False
+        a, b = rr[name], rr[name + "_no_prune"]
+        res["stats"]["max_sweeps"] = max(res["stats"].get("max_sweeps", 0), a["n_iterations_rew"], a["n_iterations_reach"], b["n_iterations_rew"])
+        if a["msg"] == "Game solved" and b["msg"] == "Game solved":
+            res["stats"]["slow_solved"] = res["stats"].get("slow_solved", 0) + 1
+            continue
+        # reported as not solved: only legitimate if the solver's own criterion for 'no solution' holds, i.e. an unpruned solve
+        # succeeds and reports exactly 0 for the initial state
+        out = monitors.observed_solve(boards_common.fresh(g), False, int(3e6 * 3 * (n + m)))
+        if out.status == "ok" and out.result[3][0] == 0:
+            res["stats"]["slow_nosol"] = res["stats"].get("slow_nosol", 0) + 1
+        else:
+            problems.append({"game": name, "problem": "game reported as not solved although it is neither solved nor without solution by the solver's own criterion",
+                             "msgs": [a["msg"], b["msg"]], "unpruned_solve": out.brief()})
+    if problems:
+        res.update(verdict="violated", what="%s (%s) %s" % (problems[0]["problem"], problems[0]["game"], problems[0]["msgs"][0][:120]), witness=problems[:3], case={"slow": idx})
+    return res
+
+
 def plan(tier, seed):
     q = tier == "quick"
     b = harness.split("PARAM", 96 if q else 1500, 4 if q else 6)
     b += harness.split("MANUAL", 40 if q else 600, 10 if q else 50)
     b += harness.split("SUBPROC", 8 if q else 60, 4 if q else 10)
+    b += harness.split("EDGE", 4 * len(EDGE_VALUES), 10)
+    b += harness.split("SLOWP", 1 if q else 6, 1)
     return b
 
 
@@ -293,12 +383,21 @@ def run_batch(batch):
     monitors.MON.flags.update(alias=False, prune=False)
     for idx in range(batch["start"], batch["start"] + batch["count"]):
         EMIT_START(idx)
-        yield decide(idx, batch["seed"], batch["tier"], batch["cls"])
+        if batch["cls"] == "EDGE":
+            yield decide_edge(idx, batch["seed"])
+        elif batch["cls"] == "SLOWP":
+            yield decide_slow(idx, batch["seed"])
+        else:
+            yield decide(idx, batch["seed"], batch["tier"], batch["cls"])
 
 
 def replay(case):
     monitors.install()
     monitors.MON.flags.update(alias=False, prune=False)
+    if "edge" in case:
+        return decide_edge(case["edge"], 0)
+    if "slow" in case:
+        return decide_slow(case["slow"], 0)
     return decide(0, 0, "thorough", case.get("cls", "PARAM"), given=case)
 
 
